@@ -292,7 +292,11 @@ def clauses(ev):
 # ------------------------------------------------------------------ free-running runs
 
 def gen_free(g, n):
-    lines = []
+    # one long epoch in every run (class r of DEEPEN.md: the whole range of the counter's type — a step counter
+    # narrowed to 16 bits wraps after 65536 steps of one epoch; step numbers must keep counting)
+    lines = ["free %d %d r j" % (WD_RERUN, 65536 + 4)]
+    if n > 500:
+        lines.append("free %d %d r z50 s j" % (WD_RERUN, 2 * 65536 + 3))
     for i in range(n):
         toks = []
         style = g.r.choice(["teardown", "teardown", "expire", "reboot-run", "early-teardown"])
